@@ -46,6 +46,13 @@ class SimDisk(object):
     def disarm(self):
         self.crash_at = None
         self.full_at = None
+        self.error_at = None
+
+    def arm_error(self, k, err, torn=0):
+        """The k-th mutating event from now (a write of any kind, a truncating open, a creation)
+        is refused once with OSError(err); nothing of it reaches the file, except the first
+        `torn` bytes of an append.  Later events succeed."""
+        self.error_at = (self.seq + k, err, torn)
 
     def arm_full(self, k):
         """From the k-th mutating event from now on the disk is full: whatever would make a file
@@ -65,6 +72,16 @@ class SimDisk(object):
             self._event(path, "create", 0, b"")
 
     def _maybe_crash(self, path, kind, offset, data):
+        ea = getattr(self, "error_at", None)
+        if ea is not None and self.seq + 1 >= ea[0]:
+            self.error_at = None
+            self.error_hits = getattr(self, "error_hits", 0) + 1
+            self.error_event = (path, kind, offset)
+            if kind == "append" and ea[2]:
+                part = data[: ea[2]]
+                self.files[path].extend(part)
+                self._event(path, "append-torn", offset, part)
+            raise OSError(ea[1], _real_os.strerror(ea[1]) + " (injected)", path)
         if getattr(self, "full_at", None) is not None and self.seq + 1 >= self.full_at and kind in ("append", "anomalous", "create", "resize"):
             if kind != "resize" or offset > len(self.files.get(path, b"")):
                 self.full_hits = getattr(self, "full_hits", 0) + 1
@@ -192,6 +209,15 @@ class SimFile(object):
             data = bytes(buf[self.pos :])
         else:
             data = bytes(buf[self.pos : self.pos + n])
+        sr = getattr(self.disk, "short_read_in", None)
+        if sr is not None and len(data) > 1:
+            if sr <= 1:
+                # a read that returns fewer bytes than asked (legal for read(2)), once
+                self.disk.short_read_in = None
+                self.disk.short_reads = getattr(self.disk, "short_reads", 0) + 1
+                data = data[: max(1, len(data) // 2)]
+            else:
+                self.disk.short_read_in = sr - 1
         self.pos += len(data)
         return data
 
@@ -200,6 +226,18 @@ class SimFile(object):
         if self.mode.startswith("a"):
             # POSIX append mode: every write goes to the end of the file, whatever seek() said
             self.pos = len(self.disk.files[self.path])
+        lim = getattr(self.disk, "size_limit", None)
+        if lim is not None and lim[0] == self.path and self.pos + len(data) > lim[1] and self.pos >= len(self.disk.files[self.path]):
+            # a file-size limit: the OS takes what fits.  A buffered file object reports that as an
+            # error; a raw one just returns the shorter count
+            room = max(0, lim[1] - self.pos)
+            if room:
+                self.disk.write_at(self.path, self.pos, data[:room])
+                self.pos += room
+            self.disk.limit_hits = getattr(self.disk, "limit_hits", 0) + 1
+            if getattr(self, "raw", False):
+                return room
+            raise OSError(errno.EFBIG, "File too large (injected)", self.path)
         self.disk.write_at(self.path, self.pos, data)
         self.pos += len(data)
         return len(data)
@@ -288,7 +326,7 @@ class Seam(object):
         self.disk = None
         self.installed = False
 
-    def _open(self, path, mode="r"):
+    def _open(self, path, mode="r", buffering=-1, **kw):
         d = self.disk
         path = _real_os.fspath(path)
         if "b" not in mode:
@@ -306,6 +344,7 @@ class Seam(object):
         else:
             raise ValueError(mode)
         f = SimFile(d, path, mode)
+        f.raw = buffering == 0  # an unbuffered file: a write the OS cuts short returns a count, raises nothing
         if mode.startswith("a"):
             f.pos = len(d.files[path])
         return f
